@@ -909,6 +909,96 @@ def c17(fns, tier, env):
     return finalize(out, env)
 
 
+# ============================================================================ C16: cache accounting deltas
+def c16(fns, tier, env):
+    return finalize([site_cache_insert(fns), site_cache_remove(fns)], env)
+
+
+def _field_writes(path, idx):
+    return [e for e in path.events if e.kind == "write" and e.callee.split(".")[-1] == str(idx)]
+
+
+def site_cache_insert(fns):
+    f = mir.find(fns, "::insert_entry", "src/core/cache.rs")
+    ob = Ob("site_cache_insert_entry", "ClockCache::insert_entry keeps `cache_memory == sum of entry.size`: a new entry is pushed with size S and S is added; an in-place "
+            "replacement stores the new S in the entry AND moves the counter by exactly S - old_size; a refused replacement (generation guard) changes nothing",
+            "all paths; bucket scan loop: one arbitrary entry", f)
+    m = re.search(r"CacheEntry \{.*size: copy (_\d+) \}", f.text)
+    if not m:
+        raise mir.MirError("CacheEntry literal not found")
+    size_local = m.group(1)
+    m2 = re.search(r"\(\(\*_\d+\)\.(\d+): usize\) = copy %s;" % size_local, f.text)
+    size_idx = int(m2.group(1)) if m2 else 4
+    it = Interp(f, loop_bound=1, pure=PURE, max_paths=8000)
+    pushes = repl = 0
+    for p in it.run():
+        ob.paths += 1
+        if p.status == "truncated":
+            ob.truncated += 1
+        if p.status != "return":
+            continue
+        size = p.env.get(size_local)
+        adds = events(p, "Atomic::fetch_add")
+        subs = events(p, "Atomic::fetch_sub")
+        adds = [e for e in adds if z3.is_bv(e.args[1]) and e.args[1].size() == 64]
+        subs = [e for e in subs if z3.is_bv(e.args[1]) and e.args[1].size() == 64]
+        push = events(p, "Vec::push")
+        wsize = _field_writes(p, size_idx)
+        wval = _field_writes(p, 1)
+        if push:
+            pushes += 1
+            ob.must_hold(len(adds) == 1 and not subs, "a pushed entry adds to the counter exactly once")
+            if adds:
+                ob.need(it, p.pc, adds[0].args[1] == size, "counter += size of the pushed entry")
+            t = push[0].args[1]
+            if isinstance(t, mir.Tup):
+                ob.need(it, p.pc, t.fields[size_idx] == size, "pushed entry records its size")
+        elif wval:
+            repl += 1
+            ob.must_hold(len(wsize) >= 1, "an in-place replacement stores the new size in the entry")
+            for w in wsize:
+                ob.need(it, p.pc, w.args[1] == size, "entry.size := new size")
+            ob.must_hold(len(adds) + len(subs) == 1, "an in-place replacement moves the counter exactly once")
+            # old size is read from the entry before it is overwritten: a usize field read of the same entry
+            for e in adds:
+                ob.need(it, e.pc, z3.UGT(size, size - e.args[1]), "counter grows only when the entry grew")
+            for e in subs:
+                ob.need(it, e.pc, z3.ULE(size, size + e.args[1]), "counter shrinks only when the entry shrank")
+        else:
+            ob.must_hold(not adds and not subs and not wsize, "a path that stores nothing leaves the counter and the entry alone")
+    ob.must_hold(pushes >= 1 and repl >= 1, "both the push and the in-place replacement sites were reached")
+    return ob.result(it, witness="c16_cache_replace_accounting")
+
+
+def site_cache_remove(fns):
+    f = mir.find(fns, "::remove_entry", "src/core/cache.rs")
+    ob = Ob("site_cache_remove_entry", "ClockCache::remove_entry subtracts exactly the removed entry's recorded size, once, and only when an entry is removed", "all paths", f)
+    it = Interp(f, loop_bound=1, pure=PURE)
+    reached = 0
+    for p in it.run():
+        ob.paths += 1
+        if p.status != "return":
+            continue
+        rem = events(p, "Vec::remove")
+        subs = [e for e in events(p, "Atomic::fetch_sub") if z3.is_bv(e.args[1]) and e.args[1].size() == 64]
+        if rem:
+            reached += 1
+            ob.must_hold(len(subs) == 1, "one decrement per removed entry")
+            if subs:
+                removed = rem[0].ret
+                ok = False
+                for k in range(0, 8):
+                    cand = it.ctx.uf("proj__%d" % k, [U], z3.BitVecSort(64))(it.as_u(removed))
+                    okk, _ = it.entails(p.pc, subs[0].args[1] == cand)
+                    ob.queries += 1
+                    ok = ok or okk
+                ob.must_hold(ok, "the decrement is a usize field (its size) of the removed entry")
+        else:
+            ob.must_hold(not subs, "no decrement without a removal")
+    ob.must_hold(reached >= 1, "the removal site was reached")
+    return ob.result(it)
+
+
 # ============================================================================ recovery scan: one arbitrary iteration
 def scan_iteration(fns):
     """The scan loop cannot be unrolled over a device, but ONE iteration can be analysed from an arbitrary state:
